@@ -26,7 +26,7 @@ def parse_state(s):
     f = s.split(":")
     if f[0] == "M":
         return {"kind": "M"}
-    d = {"kind": f[0], "content": C.unhex(f[1]), "sec": int(f[2], 16), "nsec": int(f[3], 16), "t1": None}
+    d = {"kind": "F" if f[0] == "S" else f[0], "content": C.unhex(f[1]), "sec": int(f[2], 16), "nsec": int(f[3], 16), "t1": None}
     if len(f) == 7:
         d["t1"] = (C.unhex(f[4]), int(f[5], 16), int(f[6], 16))
     return d
@@ -131,6 +131,19 @@ class Check(PropertyCheck):
                 s2, ns2 = tick()
                 add(st("F", c, s, ns), st("F", c, s2, ns2), "K", "touch")
                 add(st("F", c, s, ns), st("F", c, s, (ns + 1) % 1000000000), "K", "touch-nsec")
+                if _ == 0 and n == EDGE_SIZES[0]:
+                    # sparse files (checksum-only mode hashes the CONTENT: holes are zeros at their offsets): same size, same
+                    # allocated bytes, the payload moved across a hole; and a hole against explicitly written zeros
+                    blk = 4096
+                    pay = content(blk)
+                    if pay.strip(b"\0") == b"":
+                        pay = b"x" + pay[1:]
+                    total = 64 * blk
+                    sA = pay + b"\0" * (total - blk)
+                    sB = b"\0" * (32 * blk) + pay + b"\0" * (total - 33 * blk)
+                    add(st("S", sA, s, ns), st("S", sB, s, ns), "K", "sparse-payload-moved")
+                    add(st("S", sA, s, ns), st("S", sB, s, ns), "R", "sparse-payload-moved")
+                    add(st("S", sA, s, ns), st("F", sA, s, ns), "K", "sparse-vs-dense-same-content")
                 # whole-second stamps (archive extraction, `touch -d @N`, 1-second file systems) against sub-second ones of the
                 # SAME second, in both directions, touch-only and with a same-size rewrite
                 nz = 1 + rng.below(999999999)
@@ -182,6 +195,8 @@ class Check(PropertyCheck):
     # ------------------------------------------------------------------------------------------
     def run_model(self, heads):
         cmd = [C.model_exe(), "c13pairs"]
+        # "S" (a regular file written sparsely) is a harness-only spelling: for the model it is the regular file "F"
+        heads = [" ".join(("F" + w[1:]) if w.startswith("S:") else w for w in l.split(" ")) for l in heads]
         rc, out, err = C.run_lines(cmd, heads)
         private = os.path.join(C.LEAN, "DriverC13.lean")
         if rc == 2 and "unknown mode" in err and os.path.exists(private):
